@@ -60,19 +60,22 @@ type ledgerEntry struct {
 
 // a transaction handed out by the wallet
 type fundedTx struct {
-	v2       bool
-	v1txn    types.Transaction
-	v2txn    types.V2Transaction
-	toSignV1 []types.Hash256
-	toSignV2 []int
-	basis    types.ChainIndex
-	inputs   []types.SiacoinOutputID // selected by the wallet, in order
-	existing int
-	unc      bool
-	lo, hi   time.Duration // the call happened within [lo, hi]
-	released bool          // an input was handed to ReleaseInputs, or the wallet restarted
-	inPool   bool
-	signed   bool
+	v2         bool
+	v1txn      types.Transaction
+	v2txn      types.V2Transaction
+	toSignV1   []types.Hash256
+	toSignV2   []int
+	basis      types.ChainIndex
+	inputs     []types.SiacoinOutputID // selected by the wallet in this call, in order
+	txInputs   []types.SiacoinOutputID // every wallet input of the transaction object (= inputs unless a call added to an already funded transaction)
+	superseded bool                    // a later call added to the same transaction object
+	mergedFrom []*fundedTx             // the earlier records of the same transaction object
+	existing   int
+	unc        bool
+	lo, hi     time.Duration // the call happened within [lo, hi]
+	released   bool          // an input was handed to ReleaseInputs, or the wallet restarted
+	inPool     bool
+	signed     bool
 }
 
 type reservation struct{ lo, hi time.Duration }
@@ -112,6 +115,15 @@ type env struct {
 	start   time.Time
 	lastB   time.Duration
 	tainted bool // a reservation expired while a call was in flight: the case is not compared
+
+	blind                       bool // a stretch of operations without any read call of the wallet or of the manager's pool
+	blindExp                    map[types.SiacoinOutputID]types.Currency
+	blindSum                    types.Currency
+	outsFirst                   bool // the next observation calls SpendableOutputs before Balance
+	hk                          *hooks
+	dropCoq                     bool // the case is judged by the monitors only
+	justRestarted, afterRestart bool
+	noViews                     bool // the next observation must not read the wallet (a second, overlapping call is still to be recorded)
 
 	trace []string // Coq (op, obs) pairs
 	fails []failure
@@ -173,7 +185,7 @@ func newEnv(spec caseSpec) (*env, error) {
 	e.pk = types.NewPrivateKeyFromSeed(seed[:])
 	e.addr = types.StandardUnlockHash(e.pk.PublicKey())
 	e.ws = testutil.NewEphemeralWalletStore()
-	e.w, err = wallet.NewSingleAddressWallet(e.pk, e.cm, e.ws, e.syncer, spec.Cfg.opts()...)
+	e.w, err = e.newWallet()
 	if err != nil {
 		return nil, err
 	}
